@@ -2988,6 +2988,37 @@ fn attach_footprint_guards(
     Ok(())
 }
 
+/// Verification hook: run the production merge over worker results.
+#[cfg(feature = "echo_verif")]
+pub(crate) fn echo_verif_merge(worker_results: Vec<WorkerResult>) -> Result<Vec<WarpOp>, EngineError> {
+    merge_parallel_deltas(worker_results)
+}
+
+#[cfg(feature = "echo_verif")]
+impl Engine {
+    /// Verification hook: enqueue a raw pending rewrite.
+    pub(crate) fn echo_verif_enqueue(&mut self, tx: TxId, rewrite: PendingRewrite) {
+        self.scheduler.enqueue(tx, rewrite);
+    }
+
+    /// Verification hook: drain the pending queue in canonical order.
+    pub(crate) fn echo_verif_drain(&mut self, tx: TxId) -> Vec<PendingRewrite> {
+        self.scheduler.drain_for_tx(tx)
+    }
+
+    /// Verification hook: run the real reservation/receipt construction.
+    pub(crate) fn echo_verif_reserve(
+        &mut self,
+        tx: TxId,
+        drained: Vec<PendingRewrite>,
+    ) -> Result<(TickReceipt, Vec<u64>), EngineError> {
+        let outcome = self.reserve_for_receipt(tx, drained)?;
+        let tags = outcome.reserved.iter().map(|r| r.origin.intent_id).collect();
+        self.scheduler.finalize_tx(tx);
+        Ok((outcome.receipt, tags))
+    }
+}
+
 pub(crate) fn footprints_conflict(
     a: &crate::footprint::Footprint,
     b: &crate::footprint::Footprint,
